@@ -53,3 +53,8 @@ class SemsegTransformWrapper(KDWrapper):
                     transform.set_rng(rng)
                 x = transform(x, ctx=ctx)
         return x, semseg
+
+    def _worker_init_fn(self, rank, **kwargs):
+        for transform in self.transforms:
+            if isinstance(transform, KDTransform):
+                transform.worker_init_fn(rank, **kwargs)
